@@ -1,6 +1,6 @@
 (* Run.v — one harness line -> verdict (see harness/sem/main.go for the line format).
 
-     (run <cap> <ast> <input> <repsens t|f> (<inputs>..) (<outputs>..) <ending>)
+     (run <cap> <ast> <input> <repsens t|f> (<inputs>..) (<outputs>..) <ending> <hex program text: ignored>)
      ending: end | cap | (err <class> <value|_>) | (halt <value> <code>)
 
    Verdict: "ok" | (skip <reason>) | (bad <model outputs> <model ending>).
@@ -63,7 +63,7 @@ Definition ending_agrees (n : nat) (m : ending) (impl : sexp) : bool :=
 
 Definition run_sexp (n : nat) (e : sexp) : sexp :=
   match e with
-  | SList [k; Atom capa; ast; inp; rs; SList ins; SList outs; ending] =>
+  | SList [k; Atom capa; ast; inp; rs; SList ins; SList outs; ending; _] =>
       if atom_is "run" k then
         match parse_N capa, dec_query n ast, dec_jv n inp, dec_bool rs, map_opt (dec_jv n) ins, map_opt (dec_jv n) outs with
         | Some capn, Some q, Some v, Some rsens, Some ins, Some outs =>
